@@ -6,6 +6,8 @@ import (
 	"sort"
 	"strings"
 	"time"
+
+	dtls "github.com/pion/dtls/v3"
 )
 
 // C17: retransmission timer law, backoff reset, no storms.
@@ -144,7 +146,7 @@ func c17Run(rc *RunCtx, params any) {
 	p := params.(*C17Params)
 	s := rc.S
 	v, ok := variantByName(p.Variant)
-	if !ok || v.Resume {
+	if !ok {
 		v, _ = variantByName("12-cert")
 	}
 	rc.R.Class = v.Name + "/" + p.Mode
@@ -162,6 +164,21 @@ func c17Run(rc *RunCtx, params any) {
 
 		return
 	}
+	env := &Env{Stores: map[string]dtls.SessionStore{}}
+	var base int64
+	if v.Resume {
+		// an abbreviated handshake (the server sends the first Finished): a clean first connection
+		// fills both stores, the connection under test starts after it
+		env.Stores["cstore"] = NewSimStore(s, "cstore", 0)
+		env.Stores["sstore"] = NewSimStore(s, "sstore", 0)
+		if !runResumePrelude(rc, v, env) {
+			return
+		}
+		s.Run(func() bool { return false }, time.Second)
+		base = int64(s.Now())
+		p = &C17Params{Variant: p.Variant, Mode: p.Mode, CutNs: p.CutNs + base, HealNs: p.HealNs + base, Cut2Ns: p.Cut2Ns + base, FlightMs: p.FlightMs,
+			NoBack: p.NoBack, Replays: p.Replays, Garbage: p.Garbage, LatMs: p.LatMs, CutC: p.CutC, CutS: p.CutS, MTU: p.MTU}
+	}
 	stale := p.Mode == "stale" || p.Mode == "partial"
 	horizon := 16 * time.Minute
 	if p.NoBack && p.FlightMs > 0 {
@@ -174,11 +191,11 @@ func c17Run(rc *RunCtx, params any) {
 	rules := NetRules{BaseLatencyNs: int64(p.LatMs) * int64(time.Millisecond), JitterNs: int64(900 * time.Microsecond)}
 	switch p.Mode {
 	case "reset":
-		rules.Partitions = [][2]int64{{p.CutNs, p.HealNs}, {p.Cut2Ns, int64(2 * horizon)}}
+		rules.Partitions = [][2]int64{{p.CutNs, p.HealNs}, {p.Cut2Ns, base + int64(2*horizon)}}
 	case "partial":
 		rules.CutIdx = map[string]int{"c": p.CutC, "s": p.CutS}
 	default:
-		rules.Partitions = [][2]int64{{p.CutNs, int64(2 * horizon)}}
+		rules.Partitions = [][2]int64{{p.CutNs, base + int64(2*horizon)}}
 	}
 	rc.Note("proto", protoTag(v.C, v.S))
 	// sixteen virtual minutes at a 20 ms constant interval are ~50000 legitimate
@@ -186,7 +203,7 @@ func c17Run(rc *RunCtx, params any) {
 	// emission budget is lifted and the step budget raised
 	s.MaxEmits, s.MaxSteps = 0, 600_000
 	n := NewSimNet(s, rules)
-	pair, err := NewPair(s, n, v.C, v.S, nil)
+	pair, err := NewPair(s, n, v.C, v.S, env)
 	if err != nil {
 		rc.Violate("harness", "config: %v", err)
 
@@ -336,8 +353,10 @@ func c17Run(rc *RunCtx, params any) {
 						continue
 					}
 					// anything delivered after the flight's first transmission makes the
-					// schedule input-dependent, except stale input to a DTLS 1.2 endpoint
-					if !(stale && d.Injected && !is13) {
+					// schedule input-dependent, except stale input to a DTLS 1.2 endpoint and,
+					// for DTLS 1.3 (which answers a repeated flight at once and counts that as a
+					// timeout), input that is no flight at all: garbage and ACKs for nothing
+					if !(stale && d.Injected && (!is13 || p.Garbage)) {
 						exact = false
 					}
 				}
